@@ -20,7 +20,7 @@ import (
 
 func init() { register(factsClientCfg) }
 
-func unq(e ast.Expr) (string, bool) {
+func fUnq(e ast.Expr) (string, bool) {
 	if l, ok := e.(*ast.BasicLit); ok && l.Kind == token.STRING {
 		s, err := strconv.Unquote(l.Value)
 		return s, err == nil
@@ -28,9 +28,9 @@ func unq(e ast.Expr) (string, bool) {
 	return "", false
 }
 
-// switchTable flattens `switch tag { case "a","b": body ; case "c": fallthrough ; default: body }` into
+// fSwitchTable flattens `switch tag { case "a","b": body ; case "c": fallthrough ; default: body }` into
 // label -> key(body), where key maps the body that finally executes (after fallthroughs) to a short name.
-func switchTable(sw *ast.SwitchStmt, key func(body []ast.Stmt) string) (cases [][2]string, dflt string, ok bool) {
+func fSwitchTable(sw *ast.SwitchStmt, key func(body []ast.Stmt) string) (cases [][2]string, dflt string, ok bool) {
 	cl := sw.Body.List
 	bodyOf := func(i int) []ast.Stmt {
 		for ; i < len(cl); i++ {
@@ -53,7 +53,7 @@ func switchTable(sw *ast.SwitchStmt, key func(body []ast.Stmt) string) (cases []
 			continue
 		}
 		for _, e := range cc.List {
-			s, isStr := unq(e)
+			s, isStr := fUnq(e)
 			if !isStr {
 				return nil, "", false
 			}
@@ -63,7 +63,7 @@ func switchTable(sw *ast.SwitchStmt, key func(body []ast.Stmt) string) (cases []
 	return cases, dflt, true
 }
 
-func findSwitch(fn *ast.FuncDecl, tagRe string) *ast.SwitchStmt {
+func fFindSwitch(fn *ast.FuncDecl, tagRe string) *ast.SwitchStmt {
 	var found *ast.SwitchStmt
 	r := regexp.MustCompile(tagRe)
 	ast.Inspect(fn.Body, func(n ast.Node) bool {
@@ -75,7 +75,7 @@ func findSwitch(fn *ast.FuncDecl, tagRe string) *ast.SwitchStmt {
 	return found
 }
 
-func findIf(n ast.Node, condRe string) *ast.IfStmt {
+func fFindIf(n ast.Node, condRe string) *ast.IfStmt {
 	var found *ast.IfStmt
 	r := regexp.MustCompile(condRe)
 	ast.Inspect(n, func(m ast.Node) bool {
@@ -87,8 +87,8 @@ func findIf(n ast.Node, condRe string) *ast.IfStmt {
 	return found
 }
 
-// assignIn returns the RHS of `lhs = rhs` among the top-level statements of a block
-func assignIn(list []ast.Stmt, lhs string) ast.Expr {
+// fAssignIn returns the RHS of `lhs = rhs` among the top-level statements of a block
+func fAssignIn(list []ast.Stmt, lhs string) ast.Expr {
 	for _, s := range list {
 		if a, ok := s.(*ast.AssignStmt); ok && len(a.Lhs) == 1 && len(a.Rhs) == 1 && show(a.Lhs[0]) == lhs {
 			return a.Rhs[0]
@@ -97,7 +97,7 @@ func assignIn(list []ast.Stmt, lhs string) ast.Expr {
 	return nil
 }
 
-func pairList(xs [][2]string) string {
+func fPairList(xs [][2]string) string {
 	var q []string
 	for _, x := range xs {
 		q = append(q, "("+leanStr(x[0])+", "+leanStr(x[1])+")")
@@ -105,22 +105,22 @@ func pairList(xs [][2]string) string {
 	return "[" + strings.Join(q, ", ") + "]"
 }
 
-// strExpr translates a concatenation of string literals and known variables
-func strExpr(e ast.Expr, vars map[string]string) (string, bool) {
+// fStrExpr translates a concatenation of string literals and known variables
+func fStrExpr(e ast.Expr, vars map[string]string) (string, bool) {
 	if v, ok := vars[show(e)]; ok {
 		return v, true
 	}
 	switch e := e.(type) {
 	case *ast.BasicLit:
-		if s, ok := unq(e); ok {
+		if s, ok := fUnq(e); ok {
 			return leanStr(s), true
 		}
 	case *ast.ParenExpr:
-		return strExpr(e.X, vars)
+		return fStrExpr(e.X, vars)
 	case *ast.BinaryExpr:
 		if e.Op == token.ADD {
-			a, ok1 := strExpr(e.X, vars)
-			b, ok2 := strExpr(e.Y, vars)
+			a, ok1 := fStrExpr(e.X, vars)
+			b, ok2 := fStrExpr(e.Y, vars)
 			return "(" + a + " ++ " + b + ")", ok1 && ok2
 		}
 	}
@@ -139,16 +139,16 @@ func factsClientCfg() {
 		"remote.NumConn": "remoteNumConn"}
 
 	// ---- KeepAlive ----
-	if is := findIf(fn.Body, `raw\.KeepAlive`); is == nil || is.Else == nil {
+	if is := fFindIf(fn.Body, `raw\.KeepAlive`); is == nil || is.Else == nil {
 		unrec(g, "keepAlive", "if on raw.KeepAlive with an else branch not found")
 	} else {
 		boolExpr(g, "keepAliveOffCond", "(rawKeepAlive : Int)", cl, is.Cond, vars)
-		numExpr(g, "keepAliveOffVal", "(rawKeepAlive remoteKeepAlive : Int)", cl, assignIn(is.Body.List, "remote.KeepAlive"), vars)
+		numExpr(g, "keepAliveOffVal", "(rawKeepAlive remoteKeepAlive : Int)", cl, fAssignIn(is.Body.List, "remote.KeepAlive"), vars)
 		eb, _ := is.Else.(*ast.BlockStmt)
 		if eb == nil {
 			unrec(g, "keepAliveOnVal", "else branch is not a block")
 		} else {
-			numExpr(g, "keepAliveOnVal", "(rawKeepAlive remoteKeepAlive : Int)", cl, assignIn(eb.List, "remote.KeepAlive"), vars)
+			numExpr(g, "keepAliveOnVal", "(rawKeepAlive remoteKeepAlive : Int)", cl, fAssignIn(eb.List, "remote.KeepAlive"), vars)
 		}
 		// how often remote.KeepAlive is assigned before this statement (the model passes its value at that point: the zero value)
 		n := 0
@@ -165,35 +165,35 @@ func factsClientCfg() {
 		natFact(g, "keepAliveEarlierAssignments", n, "assignments to remote.KeepAlive (or remote) before the KeepAlive statement")
 	}
 	// ---- StreamTimeout ----
-	if is := findIf(fn.Body, `raw\.StreamTimeout`); is == nil || is.Else == nil {
+	if is := fFindIf(fn.Body, `raw\.StreamTimeout`); is == nil || is.Else == nil {
 		unrec(g, "timeout", "if on raw.StreamTimeout with an else branch not found")
 	} else {
 		boolExpr(g, "timeoutDefaultCond", "(rawStreamTimeout : Int)", cl, is.Cond, vars)
-		numExpr(g, "timeoutDefaultVal", "(rawStreamTimeout : Int)", cl, assignIn(is.Body.List, "local.Timeout"), vars)
+		numExpr(g, "timeoutDefaultVal", "(rawStreamTimeout : Int)", cl, fAssignIn(is.Body.List, "local.Timeout"), vars)
 		if eb, _ := is.Else.(*ast.BlockStmt); eb != nil {
-			numExpr(g, "timeoutVal", "(rawStreamTimeout : Int)", cl, assignIn(eb.List, "local.Timeout"), vars)
+			numExpr(g, "timeoutVal", "(rawStreamTimeout : Int)", cl, fAssignIn(eb.List, "local.Timeout"), vars)
 		}
 	}
 	// ---- NumConn / Singleplex ----
-	if is := findIf(fn.Body, `raw\.NumConn`); is == nil || is.Else == nil {
+	if is := fFindIf(fn.Body, `raw\.NumConn`); is == nil || is.Else == nil {
 		unrec(g, "numConn", "if on raw.NumConn with an else branch not found")
 	} else {
 		boolExpr(g, "singleplexCond", "(rawNumConn : Int)", cl, is.Cond, vars)
-		numExpr(g, "numConnThen", "(rawNumConn : Int)", cl, assignIn(is.Body.List, "remote.NumConn"), vars)
-		boolExpr(g, "singleplexThen", "", cl, assignIn(is.Body.List, "remote.Singleplex"), vars)
+		numExpr(g, "numConnThen", "(rawNumConn : Int)", cl, fAssignIn(is.Body.List, "remote.NumConn"), vars)
+		boolExpr(g, "singleplexThen", "", cl, fAssignIn(is.Body.List, "remote.Singleplex"), vars)
 		if eb, _ := is.Else.(*ast.BlockStmt); eb != nil {
-			numExpr(g, "numConnElse", "(rawNumConn : Int)", cl, assignIn(eb.List, "remote.NumConn"), vars)
-			boolExpr(g, "singleplexElse", "", cl, assignIn(eb.List, "remote.Singleplex"), vars)
+			numExpr(g, "numConnElse", "(rawNumConn : Int)", cl, fAssignIn(eb.List, "remote.NumConn"), vars)
+			boolExpr(g, "singleplexElse", "", cl, fAssignIn(eb.List, "remote.Singleplex"), vars)
 		}
 	}
 	// ---- encryption method switch ----
-	if sw := findSwitch(fn, `raw\.EncryptionMethod`); sw == nil {
+	if sw := fFindSwitch(fn, `raw\.EncryptionMethod`); sw == nil {
 		unrec(g, "methodCases", "switch on raw.EncryptionMethod not found")
 	} else {
 		boolFact(g, "methodLowered", show(sw.Tag) == "strings.ToLower(raw.EncryptionMethod)", "switch "+show(sw.Tag))
 		bad := ""
-		cases, dflt, ok := switchTable(sw, func(body []ast.Stmt) string {
-			if e := assignIn(body, "auth.EncryptionMethod"); e != nil {
+		cases, dflt, ok := fSwitchTable(sw, func(body []ast.Stmt) string {
+			if e := fAssignIn(body, "auth.EncryptionMethod"); e != nil {
 				name := strings.TrimPrefix(show(e), "mux.")
 				p := pkgs[mx]
 				if c, ok := p.consts[name]; ok {
@@ -205,7 +205,7 @@ func factsClientCfg() {
 				return "?"
 			}
 			if len(body) > 0 {
-				if _, ok := body[len(body)-1].(*ast.ReturnStmt); ok && assignIn(body, "err") != nil {
+				if _, ok := body[len(body)-1].(*ast.ReturnStmt); ok && fAssignIn(body, "err") != nil {
 					return "error"
 				}
 			}
@@ -224,7 +224,7 @@ func factsClientCfg() {
 		}
 	}
 	// ---- transport and browser switches ----
-	if sw := findSwitch(fn, `raw\.Transport`); sw == nil {
+	if sw := fFindSwitch(fn, `raw\.Transport`); sw == nil {
 		unrec(g, "transportCases", "switch on raw.Transport not found")
 	} else {
 		boolFact(g, "transportLowered", show(sw.Tag) == "strings.ToLower(raw.Transport)", "switch "+show(sw.Tag))
@@ -233,7 +233,7 @@ func factsClientCfg() {
 			for _, s := range body {
 				ast.Inspect(s, func(n ast.Node) bool {
 					if kv, ok := n.(*ast.KeyValueExpr); ok && show(kv.Key) == "mode" {
-						if v, ok := unq(kv.Value); ok {
+						if v, ok := fUnq(kv.Value); ok {
 							m = v
 						}
 					}
@@ -242,28 +242,28 @@ func factsClientCfg() {
 			}
 			return m
 		}
-		cases, dflt, ok := switchTable(sw, modeOf)
+		cases, dflt, ok := fSwitchTable(sw, modeOf)
 		if !ok {
 			unrec(g, "transportCases", "non-literal case label")
 		} else {
-			emit(g, "transportCases", "List (String × String)", pairList(cases), "switch strings.ToLower(raw.Transport): label -> TransportConfig.mode")
+			emit(g, "transportCases", "List (String × String)", fPairList(cases), "switch strings.ToLower(raw.Transport): label -> TransportConfig.mode")
 			emit(g, "transportDefault", "String", leanStr(dflt), "default branch of the transport switch")
 		}
 		// cdn branch
 		for _, c := range sw.Body.List {
 			cc := c.(*ast.CaseClause)
 			if len(cc.List) == 1 && show(cc.List[0]) == `"cdn"` {
-				if is := findIf(cc, `raw\.CDNOriginHost`); is != nil && is.Else != nil {
+				if is := fFindIf(cc, `raw\.CDNOriginHost`); is != nil && is.Else != nil {
 					a1 := callArgs(is.Body, `^net\.JoinHostPort$`)
 					a2 := callArgs(is.Else, `^net\.JoinHostPort$`)
 					if len(a1) == 2 && len(a2) == 2 {
-						emit(g, "cdnHostPort", "List String", leanStrList([]string{show(is.Cond), show(a1[0]), show(a1[1]), show(a2[0]), show(a2[1])}),
+						emit(g, "cdnHostPort", "List String", fLeanStrList([]string{show(is.Cond), show(a1[0]), show(a1[1]), show(a2[0]), show(a2[1])}),
 							"cdn: condition, JoinHostPort args when it holds, JoinHostPort args otherwise")
 					}
 				}
-				if is := findIf(cc, `raw\.CDNWsUrlPath`); is != nil {
-					if e := assignIn(is.Body.List, "raw.CDNWsUrlPath"); e != nil {
-						if s, ok := unq(e); ok {
+				if is := fFindIf(cc, `raw\.CDNWsUrlPath`); is != nil {
+					if e := fAssignIn(is.Body.List, "raw.CDNWsUrlPath"); e != nil {
+						if s, ok := fUnq(e); ok {
 							emit(g, "cdnPathDefault", "String", leanStr(s), "if "+show(is.Cond)+" { raw.CDNWsUrlPath = "+show(e)+" }")
 							boolFact(g, "cdnPathDefaultWhenEmpty", show(is.Cond) == `raw.CDNWsUrlPath == ""`, show(is.Cond))
 						}
@@ -271,7 +271,7 @@ func factsClientCfg() {
 				}
 				ast.Inspect(cc, func(n ast.Node) bool {
 					if kv, ok := n.(*ast.KeyValueExpr); ok && show(kv.Key) == "wsUrl" {
-						if t, ok := strExpr(kv.Value, map[string]string{"cdnDomainPort": "hostPort", "raw.CDNWsUrlPath": "path"}); ok {
+						if t, ok := fStrExpr(kv.Value, map[string]string{"cdnDomainPort": "hostPort", "raw.CDNWsUrlPath": "path"}); ok {
 							emitFn(g, "wsUrl", "(hostPort path : String)", "String", t, show(kv.Value))
 						} else {
 							unrec(g, "wsUrl", "unsupported expression "+show(kv.Value))
@@ -282,12 +282,12 @@ func factsClientCfg() {
 			}
 		}
 	}
-	if sw := findSwitch(fn, `raw\.BrowserSig`); sw == nil {
+	if sw := fFindSwitch(fn, `raw\.BrowserSig`); sw == nil {
 		unrec(g, "browserCases", "switch on raw.BrowserSig not found")
 	} else {
 		boolFact(g, "browserLowered", show(sw.Tag) == "strings.ToLower(raw.BrowserSig)", "switch "+show(sw.Tag))
-		cases, dflt, ok := switchTable(sw, func(body []ast.Stmt) string {
-			if e := assignIn(body, "browser"); e != nil {
+		cases, dflt, ok := fSwitchTable(sw, func(body []ast.Stmt) string {
+			if e := fAssignIn(body, "browser"); e != nil {
 				return show(e)
 			}
 			return "?"
@@ -295,7 +295,7 @@ func factsClientCfg() {
 		if !ok {
 			unrec(g, "browserCases", "non-literal case label")
 		} else {
-			emit(g, "browserCases", "List (String × String)", pairList(cases), "switch strings.ToLower(raw.BrowserSig): label -> browser constant")
+			emit(g, "browserCases", "List (String × String)", fPairList(cases), "switch strings.ToLower(raw.BrowserSig): label -> browser constant")
 			emit(g, "browserDefault", "String", leanStr(dflt), "default branch of the browser switch")
 		}
 	}
@@ -316,13 +316,13 @@ func factsClientCfg() {
 				what := "?"
 				if len(last.Results) == 1 {
 					if call, ok := last.Results[0].(*ast.CallExpr); ok && show(call.Fun) == "nullErr" && len(call.Args) == 1 {
-						if a, ok := unq(call.Args[0]); ok {
+						if a, ok := fUnq(call.Args[0]); ok {
 							what = "empty:" + a
 						}
 					}
-				} else if e := assignIn(s.Body.List, "err"); e != nil {
+				} else if e := fAssignIn(s.Body.List, "err"); e != nil {
 					if a := callArgs(e, `^fmt\.Errorf$`); len(a) >= 1 {
-						if m, ok := unq(a[0]); ok {
+						if m, ok := fUnq(a[0]); ok {
 							what = "error:" + m
 						}
 					}
@@ -334,12 +334,12 @@ func factsClientCfg() {
 				}
 			}
 		}
-		emit(g, "earlyReturns", "List (String × String)", pairList(checks), "top-level statements of ProcessRawConfig that can return early, in order: (condition, what is reported)")
+		emit(g, "earlyReturns", "List (String × String)", fPairList(checks), "top-level statements of ProcessRawConfig that can return early, in order: (condition, what is reported)")
 	}
 	// the public key goes through ecdh.Unmarshal; its length test
 	if a := callArgs(fn.Body, `^ecdh\.Unmarshal$`); len(a) == 1 && show(a[0]) == "raw.PublicKey" {
 		if uf := fnOf("internal/ecdh", "Unmarshal"); uf != nil {
-			if is := findIf(uf.Body, `len\(data\)`); is != nil {
+			if is := fFindIf(uf.Body, `len\(data\)`); is != nil {
 				retFalse := false
 				if len(is.Body.List) == 1 {
 					if r, ok := is.Body.List[0].(*ast.ReturnStmt); ok && len(r.Results) == 2 && show(r.Results[1]) == "false" {
@@ -372,7 +372,7 @@ func factsClientCfg() {
 				}
 			}
 		}
-		emit(g, "assigns", "List (String × String)", pairList(got), "top-level assignments of ProcessRawConfig to the listed fields, in order")
+		emit(g, "assigns", "List (String × String)", fPairList(got), "top-level assignments of ProcessRawConfig to the listed fields, in order")
 		// the filter loop of the alternative names
 		var rs *ast.RangeStmt
 		ast.Inspect(fn.Body, func(n ast.Node) bool {
@@ -400,19 +400,19 @@ func factsClientCfg() {
 			if cl, ok := e.(*ast.CompositeLit); ok {
 				var xs []string
 				for _, el := range cl.Elts {
-					if s, ok := unq(el); ok {
+					if s, ok := fUnq(el); ok {
 						xs = append(xs, s)
 					}
 				}
-				emit(g, "ssvUnquoted", "List String", leanStrList(xs), show(e))
+				emit(g, "ssvUnquoted", "List String", fLeanStrList(xs), show(e))
 			}
 		}
 		var reps [][2]string
 		chain := true
 		for i, c := range allCalls(sf.Body, `^strings\.Replace$`) {
 			if len(c.Args) == 4 {
-				a, ok1 := unq(c.Args[1])
-				b, ok2 := unq(c.Args[2])
+				a, ok1 := fUnq(c.Args[1])
+				b, ok2 := fUnq(c.Args[2])
 				if ok1 && ok2 && show(c.Args[3]) == "-1" {
 					reps = append(reps, [2]string{a, b})
 				}
@@ -421,7 +421,7 @@ func factsClientCfg() {
 				}
 			}
 		}
-		emit(g, "ssvUnescape", "List (String × String)", pairList(reps), "unescape: strings.Replace(_, old, new, -1) pairs in order")
+		emit(g, "ssvUnescape", "List (String × String)", fPairList(reps), "unescape: strings.Replace(_, old, new, -1) pairs in order")
 		boolFact(g, "ssvUnescapeChained", chain, "each Replace works on the result of the previous one")
 		src := show(sf.Body)
 		boolFact(g, "ssvShape", strings.Contains(src, `strings.Split(unescape(ssv), ";")`) && strings.Contains(src, `if ln == "" { break }`) &&
@@ -450,7 +450,7 @@ func factsClientCfg() {
 		})
 		ast.Inspect(f, func(n ast.Node) bool {
 			if a, ok := n.(*ast.AssignStmt); ok && len(a.Rhs) == 1 && strings.Contains(show(a.Rhs[0]), "ProcessRawConfig(") && len(a.Lhs) == 4 {
-				emit(g, "processResultNames", "List String", leanStrList([]string{show(a.Lhs[0]), show(a.Lhs[1]), show(a.Lhs[2])}), show(a))
+				emit(g, "processResultNames", "List String", fLeanStrList([]string{show(a.Lhs[0]), show(a.Lhs[1]), show(a.Lhs[2])}), show(a))
 			}
 			return true
 		})
